@@ -1,7 +1,7 @@
 // C43 harness: Assembler (assemble / track, Markers, OrientationSensors, locks, bounds, prescribed motion, loop constraints),
 // ObservedPointFitter, LocalEnergyMinimizer on random chains / trees with reachable targets.
 //
-//  I asm mode useRMS nRep nq tol initErr initGoal [repErr repGoal]*nRep threw ret finalErr finalGoal [kind lo hi qStart qEnd]*nq
+//  I asm mode useRMS nRep nq tol initErr initGoal postErr postGoal threw ret finalErr finalGoal [kind lo hi qStart qEnd]*nq
 //        mode 0 assemble / 1 track; kind 0 free, 1 locked-or-prescribed (must keep its value), 2 free with range [lo,hi]
 //     -> O asm <ok 0/1> <returned goal> 1        model: the decision logic of Assembler::assemble()/track() (Assembler.cpp)
 //        applied to the observed error/goal values must predict success/failure and the returned value bit-exactly, and the
@@ -174,8 +174,11 @@ static int asmCase(vh::Rng& g, bool thorough) {
         std::vector<std::pair<double, double> > seen = rep.seen;
         finalErr = asmb.calcCurrentErrorNorm(); finalGoal = asmb.calcCurrentGoal();
         asmb.updateFromInternalState(out);
+        // what the decision logic saw after the optimizer: the last report (made right after the optimizer's result was put
+        // into the internal state, before any revert), or, when an exception left early, the state left in the Assembler
+        std::pair<double, double> post = (threw || seen.empty()) ? std::make_pair(finalErr, finalGoal) : seen.back();
         vh::Line in = vh::I("asm"); in.i(mode).i(asmb.isUsingRMSErrorNorm()).i((long)seen.size()).i(nq).d(tol).d(initErr).d(initGoal);
-        for (auto& p : seen) in.d(p.first).d(p.second);
+        in.d(post.first).d(post.second);
         in.i(threw).d(threw ? 0.0 : ret).d(finalErr).d(finalGoal);
         for (int i = 0; i < nq; ++i) in.i(kind[i]).d(lo[i]).d(hi[i]).d(start.getQ()[i]).d(out.getQ()[i]);
         in.emit();
@@ -206,7 +209,7 @@ static int asmCase(vh::Rng& g, bool thorough) {
                     gi.d(std::get<2>(os[i])).d(R_SO.convertRotationToAngleAxis()[0]); }
                 gi.emit(); Real gv; osens->calcGoal(asmb.getInternalState(), gv); vh::O("osgoal").d(gwO * gv).emit(); vh::D("goal.osensors"); }
         }
-    } catch (const std::exception& e) { vh::D(std::string("asm.setupEXC")); }
+    } catch (const std::exception& e) { vh::D(std::string("asm.setupEXC")); std::string w = e.what(); for (auto& c : w) if (c == '\n') c = ' '; std::printf("# setupEXC %s\n", w.substr(0, 300).c_str()); }
     return 0;
 }
 
